@@ -137,12 +137,12 @@ Definition w_dates (cfg : enc_cfg) (ksince kbefore kon : string) (since before :
     (if t_is_zero since then [] else [lit (s2b ksince) +++ sp +++ enc_string cfg (fmt_date (t_day since))]) ++
     (if t_is_zero before then [] else [lit (s2b kbefore) +++ sp +++ enc_string cfg (fmt_date (t_day before))]).
 
-Definition w_modseq (m : option (N * bytes * bytes)) : list eres :=
+Definition w_modseq (cfg : enc_cfg) (m : option (N * bytes * bytes)) : list eres :=
   match m with
   | None => []
   | Some (n, name, typ) =>
       [slit "MODSEQ" +++
-       when (negb (nilb name) && negb (nilb typ)) (sp +++ lit (enc_quoted name) +++ sp +++ lit typ) +++
+       when (negb (nilb name) && negb (nilb typ)) (sp +++ enc_string cfg name +++ sp +++ lit typ) +++
        sp +++ lit (dec_of_N n)]
   end.
 
@@ -162,7 +162,7 @@ Fixpoint w_key (cfg : enc_cfg) (c : ccrit) : eres :=
         map (w_flag_key true) notflag ++
         (if (0 <? larger)%Z then [slit "LARGER " +++ enc_number64 larger] else []) ++
         (if (0 <? smaller)%Z then [slit "SMALLER " +++ enc_number64 smaller] else []) ++
-        w_modseq modseq ++
+        w_modseq cfg modseq ++
         map (fun n => slit "NOT " +++ w_key cfg n) nots ++
         map (fun p => slit "OR " +++ w_key cfg (fst p) +++ sp +++ w_key cfg (snd p)) ors in
       slit "(" +++ (match items with [] => slit "ALL" | _ => join_sp items end) +++ slit ")"
